@@ -22,7 +22,7 @@ CONSTANTS
   MaxReads = 0
   MaxSizes = 0
   MaxOps = 0
-INVARIANTS ValuesContract SizeAccounting EntriesTyped WriteOutcome LimitAsObserved
+INVARIANTS ValuesContract SizeAccounting PresenceOK EntriesTyped WriteOutcome LimitAsObserved
 CONSTRAINT Mark
 POSTCONDITION Accepted
 CHECK_DEADLOCK FALSE
